@@ -46,6 +46,8 @@ def check(ctx: Ctx) -> None:
     proj = ctx.proj
     ctx.rule('C19.R1', 'language agreement: the pattern text produced by suggest_pattern is wrapped in a matcher of the same language (regex text -> regex(), literal text -> contains())', floor=2)
     ctx.rule('C19.R2', 'literal-context escaping: the pattern is escaped for the quoted string literal it is written into, at every consumer', floor=2)
+    ctx.rule('C19.R4', 'suggest_pattern only cuts text off the ends of the description (end-anchored deletions, start-anchored prefixes), so what is left is one contiguous piece of it', floor=4)
+    ctx.rule('C19.R5', 'the pattern shown for a description is computed from that very description (no reuse of another description\'s pattern)', floor=2)
     ctx.rule('C19.R3', 'the suggested block is accepted by the rules loader: [header], match:, category: are keys of the loader\'s property table', floor=3)
     sp = proj.func('commands.discover.suggest_pattern')
     lang, evidence = _producer_language(sp)
@@ -78,6 +80,8 @@ def check(ctx: Ctx) -> None:
                      f'the suggested rule does not match the transaction it was suggested for', js)
         ok, why = escapes_for_string_literal(ctx.proj, f, fl, hole, js)
         ctx.check(ok, 'C19.R2', f, label, f'{src(hole)} is escaped for the quoted literal', f'{src(js)[:60]!r}: {why} (regex text contains backslashes; unescaped they are read as string escapes)', js)
+    r4_contiguous(ctx, sp)
+    r5_same_description(ctx)
     # R3: keys of the emitted block
     mp = proj.func('merchant_engine.MerchantEngine.parse')
     keys = {n.comparators[0].value for n in ast.walk(mp.node) if isinstance(n, ast.Compare) and src(n.left) == 'key' and isinstance(n.comparators[0], ast.Constant)}
@@ -99,3 +103,91 @@ def check(ctx: Ctx) -> None:
         lp = [a for a in ancestors(c) if isinstance(a, ast.For)]
         ok = bool(lp) and src(c.args[0]) == 'raw_desc' and 'raw_desc' in src(lp[0].target)
         ctx.check(ok, 'C19.R3', cd, f'source:{c.lineno - cd.lineno > 130 and "text" or "structured"}', 'the pattern is derived from the listed raw description', f'{src(c)!r} is not derived from the listed description', c)
+
+
+def r4_contiguous(ctx: Ctx, sp: FuncInfo) -> None:
+    import re._parser as sre_parse          # regex ASTs of the *literals in the source* (nothing of tally is executed)
+    import re._constants as sre_c
+    fl = get_flow(ctx.proj, sp)
+    n = 0
+    for c in fl.calls('sub'):
+        if dotted(c.func) != 're.sub' or len(c.args) < 3:
+            continue
+        pat, repl, subj = c.args[0], c.args[1], c.args[2]
+        if not (isinstance(repl, ast.Constant) and repl.value == ''):
+            continue          # not a deletion (e.g. the metacharacter escaping)
+        n += 1
+        if not isinstance(pat, ast.Constant):
+            ctx.fail('C19.R4', sp, f'delete:{src(pat)[:30]}', f'deletion with a computed pattern {src(pat)[:40]!r}', c)
+            continue
+        try:
+            tree = sre_parse.parse(pat.value)
+        except Exception as e:
+            ctx.fail('C19.R4', sp, f'delete:{pat.value}', f'deletion pattern {pat.value!r} does not parse: {e}', c)
+            continue
+        items = list(tree)
+        end = bool(items) and items[-1][0] == sre_c.AT and items[-1][1] in (sre_c.AT_END, sre_c.AT_END_STRING)
+        start = bool(items) and items[0][0] == sre_c.AT and items[0][1] in (sre_c.AT_BEGINNING, sre_c.AT_BEGINNING_STRING)
+        ctx.check(end or start, 'C19.R4', sp, f'delete:{pat.value}', f're.sub({pat.value!r}, "") cuts only at the {"end" if end else "start"}',
+                  f're.sub({pat.value!r}, "") deletes text from the MIDDLE of the description: the remaining words are no longer adjacent in the original, so the suggested '
+                  f'regex (words joined by \\s*) cannot match it — e.g. "WHOLE FOODS #123 MARKET" gives WHOLE\\s*FOODS\\s*MARKET', c)
+    # prefixes: only removed when the text starts with them
+    for lp in [x for x in ast.walk(sp.node) if isinstance(x, ast.For)]:
+        for st in ast.walk(lp):
+            if isinstance(st, ast.Assign) and isinstance(st.value, ast.Subscript) and isinstance(st.value.slice, ast.Slice) and st.value.slice.lower is not None:
+                n += 1
+                g = [a for a in ancestors(st) if isinstance(a, ast.If)]
+                ok = bool(g) and 'startswith' in src(g[0].test) and st.value.slice.upper is None and src(st.value.slice.lower).startswith('len(')
+                ctx.check(ok, 'C19.R4', sp, 'prefix-removal', 'a prefix is removed only when the text starts with it', f'{src(st)[:50]!r} is not a guarded prefix removal', st)
+    # the pattern is built from the first words, in order
+    j = [c for c in fl.calls('join') if isinstance(c.func, ast.Attribute) and isinstance(c.func.value, ast.Constant)]
+    ok = bool(j) and all(isinstance(c.args[0], ast.Name) for c in j)
+    w = [s_ for s_ in ast.walk(sp.node) if isinstance(s_, ast.Assign) and src(s_.targets[0]) == (src(j[0].args[0]) if j else '')]
+    ok = ok and bool(w) and src(w[0].value).replace(' ', '').endswith('.split()[:3]')
+    ctx.check(ok, 'C19.R4', sp, 'first-words', 'the pattern consists of the first words of what is left, in order', 'the pattern is not built from the leading words in order')
+    ctx.need(n >= 4, f'C19.R4: only {n} deletions found in suggest_pattern')
+
+
+def r5_same_description(ctx: Ctx) -> None:
+    proj = ctx.proj
+    cd = proj.func('commands.discover.cmd_discover')
+    fl = get_flow(proj, cd)
+    n = 0
+    for lp in [x for x in ast.walk(cd.node) if isinstance(x, ast.For) and 'sorted_descs' in src(x.iter)]:
+        names = [e.id for e in ast.walk(lp.target) if isinstance(e, ast.Name)]
+        # the description variable of this loop: the loop name whose value is the listed text (printed / stored as raw_description)
+        raw = next((nm for nm in names if 'desc' in nm.lower()), names[-2] if len(names) >= 2 else (names[0] if names else None))
+        if raw is None:
+            continue
+        for st in lp.body:
+            for node in ast.walk(st):
+                uses = []
+                if isinstance(node, ast.Call) and call_name(node) == 'suggest_merchants_rule' and len(node.args) > 1:
+                    uses.append(node.args[1])
+                if isinstance(node, ast.JoinedStr):
+                    for hole, inside in holes_in_quotes(node):
+                        if _matcher_of(node, hole) is not None:
+                            uses.append(hole)
+                for u in uses:
+                    if not fl.cfg.has(u):
+                        continue
+                    n += 1
+                    paths = fl.leaf_paths(u, u)
+                    bad = []
+                    for leaf, ops in paths:
+                        if leaf.startswith(('global:', 'const:')) and not any(o.startswith(('[', 'name:')) for o in ops[:-1] if o != ops[-1]) :
+                            continue      # the callee name of a helper / a literal, not data
+                        if leaf.startswith('global:'):
+                            continue
+                        if 'call:suggest_pattern' not in ops:
+                            bad.append(f'{leaf} reaches the pattern without passing suggest_pattern')
+                            continue
+                        i = ops.index('call:suggest_pattern')
+                        inner, outer = ops[:i], ops[i + 1:]
+                        if any(o.startswith('[') or o in ('call:get', 'call:setdefault', 'call:pop', 'op:stored') for o in outer):
+                            bad.append('the suggest_pattern result passes through a lookup table')
+                        if leaf.startswith('loopvar:') and leaf != f'loopvar:{raw}' and f'name:{raw}' not in inner:
+                            bad.append(f'computed from {leaf}, not from {raw}')
+                    ctx.check(not bad, 'C19.R5', cd, f'pattern-source:{src(u)[:24]}@{"json" if "suggest_merchants_rule" in src(st) else "text"}', f'pattern for {raw} = suggest_pattern({raw})',
+                              f'the pattern used for {raw} ({src(u)[:40]}): {bad[0] if bad else ""}: two descriptions that share a suggested merchant name get the same regex, which cannot match both', u)
+    ctx.need(n >= 2, f'C19.R5: only {n} pattern uses found in cmd_discover')
